@@ -238,6 +238,9 @@ def gen_repo(ctx):
                     out.append(b)
             if rng.random() < 0.5 and "master" not in out:
                 out.append("master")
+            if rng.random() < 0.35:
+                # unrelated branches whose last path segment looks like a version
+                out.append(rng.choice(["backport/7.6", "users/jane/8", "feature/7.3.1", "wip/7.3", "x/y/7"]))
             return out
 
         remote = rng.random() < 0.5
@@ -247,8 +250,8 @@ def gen_repo(ctx):
             if t not in tags:
                 tags.append(t)
         v = gen_version(rng)
-        if v is None or not STRICT.match(v or ""):
-            v = "7.3.1"
+        if v is None or not STRICT.match(v or "") or rng.random() < 0.3:
+            v = rng.choice(["7.3.1", "7.8.0", "8.0.0", "7.6.2"])
         yield {"remote": remote, "remote_branches": names() if remote else [], "local_branches": names(), "tags": tags, "v": v}
 
 
@@ -339,5 +342,5 @@ STREAMS = [
     Stream("best_match", gen_best_match, run_best_match, quick=20000, thorough=1000000),
     Stream("best_match_quirk_names", gen_quirk, run_best_match, quick=500, thorough=20000, shards=2),
     Stream("small_universe", gen_small_universe, run_best_match, quick=6000, thorough=1, shards=16, exhaustive_thorough=True),
-    Stream("repo_update_git", gen_repo, run_repo, quick=32, thorough=1000, shards=16),
+    Stream("repo_update_git", gen_repo, run_repo, quick=240, thorough=3000, shards=16),
 ]
